@@ -108,19 +108,19 @@ type World struct {
 	stubTimeout time.Duration
 
 	// spec C17lock (lockspec.go): simulated mutexes, concurrent side operations, a Proxy
-	lock       bool
-	rt         *kernel.LockRuntime
-	ls         *kernel.Lockstep
-	ops        []*sideOp
-	maxOps     int
-	opsActive  int
-	proxy      *submission.Proxy
-	llm        *submission.LogListManager
-	llPath     string
-	llJSON     [2][]byte
-	llWhich    int
-	partyMu    sync.Mutex
-	byParty    map[string]*call
+	lock      bool
+	rt        *kernel.LockRuntime
+	ls        *kernel.Lockstep
+	ops       []*sideOp
+	maxOps    int
+	opsActive int
+	proxy     *submission.Proxy
+	llm       *submission.LogListManager
+	llPath    string
+	llJSON    [2][]byte
+	llWhich   int
+	partyMu   sync.Mutex
+	byParty   map[string]*call
 }
 
 // New is the constructor for the kernel.
